@@ -82,7 +82,8 @@ def fixed_random(n):
 def hello_stubs():
     return [(tc, "getRandomBytes", fixed_random),
             (M, "getRandomBytes", fixed_random),
-            (tc, "HandshakeHashes", HelloHashes)]
+            (tc, "HandshakeHashes", HelloHashes),
+            (trl, "HandshakeHashes", HelloHashes)]
 
 
 HELLO_ASSUMES = [
@@ -203,3 +204,73 @@ def settings_family():
     s.maxVersion = (3, 3)
     fam["no-aead"] = s
     return dict((k, v.validate()) for k, v in fam.items())
+
+
+# ---------------------------------------------------------------------------
+# F-CLI
+# ---------------------------------------------------------------------------
+
+def sh_bytes(version, random, session_id, suite, extensions=None,
+             compression=0):
+    sh = M.ServerHello()
+    sh.create(version, random, newbuf(list(session_id)), suite, 0, None,
+              None, extensions=extensions)
+    sh.compression_method = compression
+    return sh.write()
+
+
+def client_conn():
+    """client connection whose socket blocks (would-block) when empty so
+    that the wire can be supplied after the ClientHello has been produced"""
+    conn = tc.TLSConnection(FaultSock([], block_when_empty=True))
+    return conn
+
+
+def run_client_hello(conn, settings, make_server_wire, session=None,
+                     alpn=None, serverName=None, cert_params=None):
+    """drives _handshakeClientAsyncHelper up to the first stage after the
+    ServerHello checks.  make_server_wire(clientHello) -> bytes to feed once
+    the ClientHello has been written.  returns dict(kind=..., clientHello=..)
+    kind: 'tls13' | 'resume-check' | 'alert' | 'remote-alert'"""
+    out = dict(kind=None, clientHello=None)
+    fed = [False]
+
+    def cut13(*a, **k):
+        raise Cut("tls13", a)
+        yield 0
+
+    def cut_resume(sess, serverHello, clientRandom, nextProto, stg):
+        raise Cut("tls12-continues", serverHello)
+        yield 0
+    conn._clientTLS13Handshake = cut13
+    conn._clientResume = cut_resume
+    orig_send = conn._clientSendClientHello
+
+    def send_hello(*a, **k):
+        for r in orig_send(*a, **k):
+            if isinstance(r, M.ClientHello):
+                out["clientHello"] = r
+                conn._handshake_hash = HelloHashes()
+                conn.sock.socket.inp = newbuf(list(make_server_wire(r)))
+                conn.sock.socket.block_when_empty = False
+            yield r
+    conn._clientSendClientHello = send_hello
+    anon = None if cert_params else True
+    try:
+        for r in conn._handshakeClientAsyncHelper(
+                None, cert_params if cert_params else None, anon, session,
+                settings, serverName, None, False, alpn):
+            if isinstance(r, int) and not isinstance(r, bool) and r in (0, 1):
+                raise AssertionError("would-block in client hello driver")
+        out["kind"] = "completed"
+    except TLSLocalAlert as e:
+        out["kind"] = "alert"
+        out["alert"] = e
+    except TLSRemoteAlert as e:
+        out["kind"] = "remote-alert"
+        out["alert"] = e
+    except Cut as c:
+        out["kind"] = c.where
+        out["data"] = c.data
+    out["sent"] = split_records(conn.sock.socket.out)
+    return out
